@@ -156,15 +156,26 @@ def attempts(cfg, call, budget=None):
                 a.must.add("MAX_ATTEMPTS_GLOBAL")
             a.may |= a.must
             if budget.on:
-                # a refusal is only meaningful if nothing else already stops the run
+                # tokens taken by another party before the library asks count against it
+                later = []
+                asked = False
+                for c in a.seg:
+                    if c[0] == "consume":
+                        asked = True
+                        later.append(c)
+                    elif c[0] == "consume_x":
+                        if asked:
+                            later.append(c)
+                        elif c[1]:
+                            budget.grant(c[2])
                 if budget.must_refuse(op.t1):
                     a.must.add("BUDGET_EXHAUSTED")
                     a.may.add("BUDGET_EXHAUSTED")
                 elif budget.may_refuse(op.t1):
                     a.may.add("BUDGET_EXHAUSTED")
-            for c in a.consumes:
-                if c[1]:
-                    budget.grant(c[2])
+                for c in later:
+                    if c[1]:
+                        budget.grant(c[2])
             if a.retries:
                 prev_delay = a.retries[-1][3]
         else:
